@@ -132,8 +132,8 @@ func C01(c *Ctx) {
 	r.Analysed["wallclock_sites_on_consensus_paths"] = counts["wallclock"]
 	r.Analysed["map_ranges_on_consensus_paths"] = counts["maprange"]
 	r.Analysed["float_sites_on_consensus_paths"] = counts["float"]
-	r.Floor("wall-clock sites on consensus paths (exceptions exercised)", counts["wallclock"], 2)
-	r.Floor("map ranges on consensus paths (exceptions exercised)", counts["maprange"], 2)
+	r.Floor("wall-clock sites on consensus paths (exceptions exercised)", counts["wallclock"], 1)
+	r.Floor("map ranges on consensus paths (exceptions exercised)", counts["maprange"], 1)
 
 	// package-level variables written outside init must not be read on consensus paths
 	written := map[string]string{}
@@ -312,14 +312,22 @@ func mapRange(c *Ctx, f *ssa.Function, e ir.Effect, path string) {
 				}
 				idx := ir.ErrIndex(f)
 				if idx < 0 {
-					problems = append(problems, "value returned from inside the loop at "+w.InstrPos(in))
+					// a search helper ("is there an element that ...") hands back the element it met first: harmless when
+					// every caller uses the non-constant results only to word an error (the verdict itself is a constant)
+					for i, res := range x.Results {
+						if _, isC := res.(*ssa.Const); !isC && !resultErrorOnly(c, f, i) {
+							problems = append(problems, "value returned from inside the loop at "+w.InstrPos(in))
+							break
+						}
+					}
 					continue
 				}
 				ev := w.ExprOf(x.Results[idx])
 				ok := ev.Op == "const" && ev.Name == "nil"
-				if ev.Op == "call" && (strings.HasSuffix(ev.Name, "errors.Wrap") || strings.HasSuffix(ev.Name, "errors.Wrapf")) && len(ev.Args) >= 1 && ev.Args[0].Op == "global" {
+				if ev.Op == "call" && (strings.HasSuffix(ev.Name, "errors.Wrap") || strings.HasSuffix(ev.Name, "errors.Wrapf")) && len(ev.Args) >= 1 && (ev.Args[0].Op == "global" || isParamPath(ev.Args[0])) {
+					// a registered error, or one the function was handed (a shared helper told which module's error to use): the same for every iteration
 					ok = true
-					sentinels[ev.Args[0].Name] = true
+					sentinels[ev.Args[0].String()] = true
 				}
 				if !ok {
 					problems = append(problems, "error returned from the loop is not a wrapped loop-invariant sentinel: "+ev.String())
@@ -965,4 +973,93 @@ func constIndexIntoFixedParse(c *Ctx, idx, s ssa.Value) bool {
 		return false
 	}
 	return i >= 0 && i < n
+}
+
+// resultErrorOnly: at every call site of f, result i is used only to build an error value (or not at all).
+func resultErrorOnly(c *Ctx, f *ssa.Function, i int) bool {
+	callers := c.W.Callers(f)
+	if len(callers) == 0 {
+		return false
+	}
+	for _, ed := range callers {
+		call, ok := ed.Site.(*ssa.Call)
+		if !ok || call.Referrers() == nil {
+			return false
+		}
+		g := call.Parent()
+		var uses []ssa.Instruction
+		if f.Signature.Results().Len() == 1 {
+			uses = *call.Referrers()
+		} else {
+			for _, x := range *call.Referrers() {
+				if ex, ok := x.(*ssa.Extract); ok && ex.Index == i && ex.Referrers() != nil {
+					uses = append(uses, *ex.Referrers()...)
+				}
+			}
+		}
+		for _, u := range uses {
+			if !useErrorOnly(c, g, u, 0) {
+				return false
+			}
+		}
+	}
+	return true
+}
+
+// useErrorOnly: the use only feeds the wording of an error. A value parked in a local variable (a struct whose
+// fields are read later) is followed to the reads of that variable.
+func useErrorOnly(c *Ctx, g *ssa.Function, u ssa.Instruction, depth int) bool {
+	if _, dbg := u.(*ssa.DebugRef); dbg {
+		return true
+	}
+	if isErrorOnlyUse(c, g, u) {
+		return true
+	}
+	st, ok := u.(*ssa.Store)
+	if !ok || depth > 3 {
+		return false
+	}
+	root, _ := addrRoot(st.Addr)
+	al, ok := root.(*ssa.Alloc)
+	if !ok || al.Parent() != g || al.Heap {
+		return false
+	}
+	// every read of the local
+	var visit func(v ssa.Value) bool
+	visit = func(v ssa.Value) bool {
+		refs := v.Referrers()
+		if refs == nil {
+			return true
+		}
+		for _, x := range *refs {
+			switch y := x.(type) {
+			case *ssa.DebugRef:
+			case *ssa.Store:
+				if y.Addr != v && y.Val == v {
+					return false // the address escapes
+				}
+			case *ssa.FieldAddr:
+				if !visit(y) {
+					return false
+				}
+			case *ssa.UnOp:
+				for _, ru := range derefUses(y) {
+					if !useErrorOnly(c, g, ru, depth+1) {
+						return false
+					}
+				}
+			default:
+				return false
+			}
+		}
+		return true
+	}
+	return visit(al)
+}
+
+func derefUses(v ssa.Value) []ssa.Instruction {
+	if v.Referrers() == nil {
+		return nil
+	}
+	return *v.Referrers()
 }
